@@ -1,8 +1,10 @@
 """C01 — transactions read from a stable snapshot (E2 engine, reader-heavy profiles)."""
 from . import e2gen as G
 from . import ck as CK
+from . import levels as LV
 
-MODEL_TARGETS = ["theories/Spec/Machine.vo"]
+MODEL_TARGETS = ["theories/Spec/Machine.vo", "theories/Lsm/Levels.vo"]
+PARAM_SECTIONS = ["levels"]
 TRUSTED = ["snapshot = number of commits completed at begin (scripts are sequential; the interleaving part of C01 is the "
            "Begin/compaction race, examined separately)"]
 ASSUMPTIONS = ["sequential scripts: begin/commit/compaction do not overlap in time here"]
@@ -102,6 +104,8 @@ def explore(ctx):
     r = CK.merge(r, CK.explore(ctx, "C01"))
     r["coverage"]["rule"] += ("; plus compaction-iterator cases: all version lists of one key up to length 3 (4 in thorough) x snapshot "
                               "subsets x bottom x versioning, and random multi-key multi-run cases, each checked against compact_key_view and against Lsm/CompactKey.v")
+    # level structure (Lsm/Levels.v): invariant, point reads and steps of the extracted model on dumps of the running store
+    r = LV.merge(r, LV.conformance(ctx, "C01", PROFILES, n_quick=160, n_thorough=500))
     return r
 
 
